@@ -81,6 +81,8 @@ class CompMixin:
       s = d.sort
       x = s.key.fresh('key')
       return Domain(x, s.has(d.t, x), V(s.val, s.get(d.t, x)))
+    if isinstance(it, V) and it.sort.name in self.theory.as_set:
+      it = self.theory.as_set[it.sort.name](self, it)
     if isinstance(it, V):
       s = it.sort
       if isinstance(s, S.Seq):
@@ -183,6 +185,8 @@ class CompMixin:
       it0 = self.eval(g0.iter)
     finally:
       self.env = saved_env
+    if isinstance(it0, V) and it0.sort.name in self.theory.as_set:
+      it0 = self.theory.as_set[it0.sort.name](self, it0)
     unordered = (isinstance(it0, tuple) and it0 and it0[0] in ('dict_items', 'dict_values')) or (
         isinstance(it0, V) and isinstance(it0.sort, (S.SetOf, S.DictOf)))
     if unordered:
